@@ -35,6 +35,7 @@ func init() {
 			{ID: "C13-R11", Title: "no direct host file access in the mediated modules (shared with C12-R1)", Floor: 5, Run: c12r1},
 			{ID: "C13-R12", Title: "the virtual working directory stays absolute and clean", Floor: 1, Run: virtualCwdStaysAbsolute},
 			{ID: "C13-R13", Title: "parent tests are component-wise", Floor: 1, Run: parentTestsAreComponentWise},
+			{ID: "C13-R14", Title: "mounts hand their source a rooted path", Floor: 1, Run: mountsHandTheirSourceARootedPath},
 		},
 	})
 }
